@@ -22,7 +22,7 @@ RULE = ("one evaluation = one written variable of one operation history (select 
 BUDGET = {"quick": (12000, 40), "thorough": (200000, 900)}
 
 FORMAT_WEIGHTS = [(3, "bed3"), (3, "bed6"), (2, "narrowpeak"), (3, "vcf"), (3, "sam"), (1, "gtf"), (3, "fastq"),
-                  (2, "fasta2"), (1, "bdg")]
+                  (2, "fasta2"), (1, "bdg"), (2, "bed12"), (2, "vcfinfo")]
 
 
 def generate(ctx, format_weights=None, noncanon=True, max_ops=None):
@@ -108,7 +108,7 @@ def check_written(ctx, f, mvar, out, op_desc, detail):
         return
     # clause 2
     ctx.state(fmt.name, f.style["crlf"], "clause2", op_desc)
-    hmark = {"vcf": b"#", "sam": b"@"}.get(fmt.header or "")
+    hmark = {"vcf": b"#", "vcfinfo": b"#", "vcfgt": b"#", "sam": b"@"}.get(fmt.header or "")
     body = out
     if hmark:
         pos = 0
@@ -117,7 +117,7 @@ def check_written(ctx, f, mvar, out, op_desc, detail):
             pos = len(body) if nl < 0 else nl + 1
         body = body[pos:]
     style = {"crlf": True}    # line terminators are not compared in clause 2: a trailing CR is stripped per line
-    vbody = body.replace(b"\t\n", b"\n").replace(b"\t\r\n", b"\r\n") if fmt.name == "sam" else body
+    vbody = body
     res = T.validate(fmt, vbody, style, lenient_extra=True)
     exp = L.expected_rows(f, mvar)
     d = dict(detail)
@@ -198,7 +198,10 @@ def execute(ctx, sc, lazy_mode="lazy"):
             vi += 1
         if op["op"] == "write":
             ctx.evals += 1
-            check_written(ctx, f, mv[op["src"]], core.unesc(r), gram, dict(detail0, step=j, op=op))
+            mv_now = L.model_vars(chunk_rows, ops, upto=j)      # attribute assignment changes a variable in place
+            check_written(ctx, f, mv_now[op["src"]], core.unesc(r), gram, dict(detail0, step=j, op=op))
+        if op["op"] == "setattr":
+            ctx.probe("attribute_assignment")
         if op["op"] == "replace":
             ctx.probe("replace_" + dict(fmt.fields)[op["field"]])
         if op["op"] == "sel" and op["idx"]["kind"] == "ints":
